@@ -41,6 +41,8 @@ pub enum VT {
     Named,
     /// reference to `Bs ::= BIT STRING { f0(0), f2(2) }`
     Bits,
+    /// `ENUMERATED { p, q-r }` written in place (an anonymous type)
+    IEnum,
     /// (member type, OPTIONAL)
     Seq(Vec<(VT, bool)>),
     Cho(Vec<VT>),
@@ -56,6 +58,7 @@ impl VT {
             VT::Enum => "e".into(),
             VT::Named => "N".into(),
             VT::Bits => "B".into(),
+            VT::IEnum => "E".into(),
             VT::Seq(ms) => format!("S({})", ms.iter().map(|(t, o)| format!("{}{}", t.label(), if *o { "?" } else { "" })).collect::<Vec<_>>().join(",")),
             VT::Cho(a) => format!("C({})", a.iter().map(|t| t.label()).collect::<Vec<_>>().join(",")),
             VT::Of(e) => format!("O({})", e.label()),
@@ -70,6 +73,7 @@ impl VT {
             VT::Enum => return "Enu".into(),
             VT::Named => return "Nn".into(),
             VT::Bits => return "Bs".into(),
+            VT::IEnum => return "ENUMERATED { p, q-r }".into(),
             VT::Seq(ms) => format!("SEQUENCE {{ {} }}", ms.iter().enumerate().map(|(i, (t, o))| format!("m{i} {}{}", t.text(named, defs, false), if *o { " OPTIONAL" } else { "" })).collect::<Vec<_>>().join(", ")),
             VT::Cho(a) => format!("CHOICE {{ {} }}", a.iter().enumerate().map(|(i, t)| format!("a{i} {}", t.text(named, defs, false))).collect::<Vec<_>>().join(", ")),
             VT::Of(e) => format!("SEQUENCE OF {}", e.text(named, defs, false)),
@@ -88,6 +92,8 @@ impl VT {
             VT::Int => vec![("5".into(), Val::Int("5".into())), ("-300".into(), Val::Int("-300".into())), ("six".into(), Val::Int("6".into()))],
             VT::Enum => vec![("y".into(), Val::Enum("Enu::y".into())), ("z-z".into(), Val::Enum("Enu::z_z".into()))],
             VT::Named => vec![("two".into(), Val::Int("2".into())), ("9".into(), Val::Int("9".into()))],
+            // (the name of the hoisted type depends on the position: `*` stands for it)
+            VT::IEnum => vec![("q-r".into(), Val::Enum("*::q_r".into())), ("p".into(), Val::Enum("*::p".into()))],
             VT::Bits => vec![("{ f2 }".into(), Val::NamedBits(vec![false, false, true])), ("'11'B".into(), Val::Bits(vec![true, true]))],
             VT::Bool => vec![("TRUE".into(), Val::Bool(true)), ("FALSE".into(), Val::Bool(false))],
             VT::Null => vec![("NULL".into(), Val::Null)],
@@ -201,6 +207,7 @@ pub fn der_vt(v: &Val, t: &VT) -> Option<Vec<u8>> {
         (VT::Null, Val::Null) => der_value(v, "NULL")?,
         (VT::Enum, Val::Enum(_)) => der_value(v, "Enu")?,
         (VT::Named, Val::Int(_)) => der_value(v, "INTEGER")?,
+        (VT::IEnum, Val::Enum(e)) => tlv(0, false, 10, &[if e.ends_with("::p") { 0 } else { 1 }]),
         (VT::Bits, Val::NamedBits(_)) | (VT::Bits, Val::Bits(_)) => der_value(v, "BIT STRING")?,
         (VT::Seq(ms), Val::Seq(vs)) if ms.len() == vs.len() => {
             let mut c = vec![];
@@ -258,7 +265,7 @@ pub fn value_trees(thorough: bool) -> Vec<VT> {
     };
     let mut out = build(&leaves, &leaves);
     // leaves whose values are names (enumeral, named number, named bits): first member / alternative / element
-    out.extend(build(&vec![VT::Enum, VT::Named, VT::Bits], &vec![VT::Int]));
+    out.extend(build(&vec![VT::Enum, VT::Named, VT::Bits, VT::IEnum], &vec![VT::Int]));
     let reps = vec![
         VT::Seq(vec![(VT::Int, false)]),
         VT::Seq(vec![(VT::Int, false), (VT::Bool, true)]),
@@ -557,6 +564,7 @@ fn same(exp: &Val, got: &Val) -> bool {
         (Val::Bits(a), Val::Bits(b)) => a == b,
         (Val::Choice(a, x), Val::Choice(b, y)) => a == b && same(x, y),
         (Val::Opt(Some(x)), Val::Opt(Some(y))) => same(x, y),
+        (Val::Enum(a), Val::Enum(b)) if a.starts_with("*::") => b.rsplit("::").next() == a.rsplit("::").next(),
         (Val::Seq(a), Val::Seq(b)) | (Val::List(a), Val::List(b)) => a.len() == b.len() && a.iter().zip(b.iter()).all(|(x, y)| same(x, y)),
         // an enumerated / named-number constant may be rendered through its path
         (a, b) => a == b,
